@@ -631,6 +631,13 @@ class CallGraph:
             if s in self.norm:
                 return [self.norm[s]]
         if res:
+            # the blanket `Into` / `TryInto` impls of std call the crate's `From` / `TryFrom` impl of the mirrored pair
+            mi = re.match(r"^<(.+) as std::convert::Into<(.+)>>::into$", res)
+            if mi:
+                res = f"<{mi.group(2)} as std::convert::From<{mi.group(1)}>>::from"
+            mi = re.match(r"^<(.+) as std::convert::TryInto<(.+)>>::try_into$", res)
+            if mi:
+                res = f"<{mi.group(2)} as std::convert::TryFrom<{mi.group(1)}>>::try_from"
             m = self._impl_method(res)
             if isinstance(m, tuple):
                 return list(self.dyn_impls.get(m[1], []))
